@@ -609,7 +609,7 @@ class ReverseIdSet(DocIdSet):
     def last(self):
         idset = self.idset
         maxid = self.limit - 1
-        if idset.last() < maxid - 1:
+        if not len(idset) or idset.last() < maxid:
             return maxid
 
         for i in xrange(maxid, -1, -1):
